@@ -4,6 +4,7 @@ import (
 	"bufio"
 	"bytes"
 	"encoding/hex"
+	"encoding/json"
 	"fmt"
 	"math"
 	"os"
@@ -134,6 +135,42 @@ func runDump(path string) {
 				}
 				dumpDocs(c2, "i")
 				c2.Close()
+			case "encmeta":
+				md := mh(f[1])
+				// what ExportJSON feeds its indenter: the standard encoder's output for the decoded value
+				var v interface{}
+				if err := json.Unmarshal(md, &v); err != nil {
+					fmt.Fprintln(out, "encmeta err")
+					return
+				}
+				var eb bytes.Buffer
+				enc := json.NewEncoder(&eb)
+				enc.SetEscapeHTML(false)
+				enc.SetIndent("", "  ")
+				enc.Encode(v)
+				// what ExportJSON writes for it: a one-document collection, the block cut out of the text
+				pm := path + ".m"
+				os.Remove(pm)
+				cm, err := syz.NewCollection(syz.CollectionOptions{Name: pm, DistanceMethod: 0, DimensionCount: 1, Quantization: 64, FileMode: syz.CreateAndOverwrite})
+				if err != nil {
+					fmt.Fprintln(out, "encmeta err")
+					return
+				}
+				cm.AddDocument(1, []float64{0}, md)
+				var xb bytes.Buffer
+				syz.ExportJSON(cm, &xb)
+				cm.Close()
+				os.Remove(pm)
+				t := xb.Bytes()
+				mark := []byte("],\n    \"metadata\": ")
+				i := bytes.Index(t, mark)
+				tail := []byte("  }]\n}\n")
+				if i < 0 || !bytes.HasSuffix(t, tail) {
+					fmt.Fprintln(out, "encmeta err")
+					return
+				}
+				block := t[i+len(mark) : len(t)-len(tail)]
+				fmt.Fprintf(out, "encmeta %s %s\n", hex.EncodeToString(eb.Bytes()), hex.EncodeToString(block))
 			case "indent":
 				p, _ := hex.DecodeString(f[1])
 				d := mh(f[3])
